@@ -1,10 +1,10 @@
 CONSTANTS
   M = 16
-  MaxPackets = 5
+  MaxPackets = 4
   MinPackets = 1
   FrameSizes = {1, 2, 3}
   SameTs = FALSE
-  MaxLates = {2, 3}
+  MaxLates = {2}
   Delays = {0}
   StartBacks = {2, 9}
   MarkerModes = {TRUE, FALSE}
